@@ -25,7 +25,7 @@ FLAVOURS = {
                  ldflags="-fsanitize=thread"),
     "fuzz": dict(cc="clang", cflags="-O1 -g -fno-omit-frame-pointer "
                  "-fsanitize=fuzzer-no-link,address,undefined -fno-sanitize-recover=all "
-                 "-fno-sanitize=object-size -D" + GUARD,
+                 "-fno-sanitize=object-size,null -D" + GUARD,
                  ldflags="-fsanitize=fuzzer,address,undefined"),
     "ubsan-fast": dict(cc="gcc", cflags="-O2 -g -fsanitize=undefined -fno-sanitize-recover=all -D" + GUARD,
                        ldflags="-fsanitize=undefined"),
@@ -96,9 +96,10 @@ def build(flavour):
     fl = FLAVOURS[flavour]
     h = cur_hash()
     os.makedirs(BUILD_ROOT, exist_ok=True)
-    bdir = os.path.join(BUILD_ROOT, "%s-%s" % (h, flavour))
+    fh = hashlib.sha256((fl["cc"] + fl["cflags"] + fl["ldflags"]).encode()).hexdigest()[:6]
+    bdir = os.path.join(BUILD_ROOT, "%s-%s-%s" % (h, flavour, fh))
     stamp = os.path.join(bdir, ".complete")
-    lock = open(os.path.join(BUILD_ROOT, ".lock-%s-%s" % (h, flavour)), "w")
+    lock = open(os.path.join(BUILD_ROOT, ".lock-%s-%s-%s" % (h, flavour, fh)), "w")
     fcntl.flock(lock, fcntl.LOCK_EX)
     try:
         if os.path.exists(stamp):
